@@ -4,3 +4,12 @@ from vlib.props import glr_props
 def check(run, only=None):
     if only in (None, "B"):
         run.add_bounded(glr_props.run_bounded("C02", run.tier))
+    if only in (None, "P"):
+        from vlib.props import pcommon
+        from vlib.companions import parserfuncs as pf
+        pcommon.add_proof(run, "C02", ["parglare.glr.Parent.merge", "parglare.glr.GSSNode.create_link"], [pf.run_gss],
+                          "GSS links: create_link creates a link to a root node iff there was none (keyed by the root's id) "
+                          "and otherwise leaves the existing link in place and appends the new link's alternatives to it "
+                          "(Parent.merge: old alternatives kept in order, the other's appended in order, cached count "
+                          "invalidated); links to other roots are untouched -- no alternative is lost when a second path "
+                          "reaches the same pair of nodes")
